@@ -1476,68 +1476,6 @@ func groupSymByteEqs(preds []*PAtom) (rest []*PAtom, extra *Term) {
 	return preds, nil
 }
 
-// LexExpand rewrites, in the 0/1 term t, the comparison [a < b] (and [b < a]) of two 256-bit integers into its
-// limb-wise lexicographic form and the whole-value equality eq (a single predicate atom meaning a = b) into the
-// product of the four limb equalities, so that a limb-by-limb comparison written in the code and the whole-value
-// specification can be compared as Boolean functions of the same eight limb comparisons.
-func LexExpand(t, a, b, eq *Term) *Term {
-	limb := func(x *Term, i int) *Term { return LimbOf(x, i) }
-	lex := func(x, y *Term) *Term {
-		// [x < y] = [x3<y3] + [x3=y3]([x2<y2] + [x2=y2](...))
-		acc := TInt(0)
-		for i := 0; i < 4; i++ {
-			acc = LT(limb(x, i), limb(y, i)).Add(EQ(limb(x, i), limb(y, i)).Mul(acc))
-		}
-		return acc
-	}
-	eqAll := TInt(1)
-	for i := 0; i < 4; i++ {
-		eqAll = eqAll.Mul(EQ(limb(a, i), limb(b, i)))
-	}
-	var eqAtom *PAtom
-	if eq != nil {
-		eqAtom = eq.SinglePred()
-	}
-	out := TInt(0)
-	for _, m := range t.mons {
-		q := TConst(m.c)
-		for _, p := range m.preds {
-			f := TPred(p)
-			switch {
-			case eqAtom != nil && p == eqAtom:
-				f = eqAll
-			case p.Kind == PLT && p.A.Equal(a) && p.B.Equal(b):
-				f = lex(a, b)
-			case p.Kind == PLT && p.A.Equal(b) && p.B.Equal(a):
-				f = lex(b, a)
-			}
-			q = q.Mul(f)
-		}
-		if m.atom != nil {
-			q = q.Mul(TAtom(m.atom))
-		}
-		out = out.Add(q)
-	}
-	return out
-}
-
-// SamePred decides whether two 0/1 terms are the same Boolean function of the comparison atoms they mention
-// (at most 10 atoms; assignments that contradict the relations between comparisons are left out).
-func SamePred(x, y *Term) bool {
-	d := TrichoNorm(x).Sub(TrichoNorm(y))
-	if !d.IsPred() {
-		return false
-	}
-	if len(d.mons) == 0 {
-		return true
-	}
-	if len(d.PredAtoms()) > 10 {
-		return false
-	}
-	lo, hi := d.Bounds()
-	return lo.Sign() == 0 && hi.Sign() == 0
-}
-
 // SameLex decides got = want as Boolean functions of the eight limb comparisons of the 256-bit integers a and b:
 // every predicate atom of either term must be a limb comparison [a_i < b_i], [b_i < a_i], [a_i = b_i], the
 // whole-value equality eq, or the whole-value comparison [a < b] / [b < a]; both terms are evaluated under all
